@@ -340,6 +340,21 @@ func genOps(prop string, r *Rng, n int, tier string, emit func(string)) {
 				}
 				emit("udec " + hx(append(b, validFrame(r, allKinds[r.Intn(len(allKinds))])...)))
 			}
+			for i := 0; i < n/80; i++ { // SR/RR whose extension is a few octets short of one more report block, count bumped
+				var p rtcp.Packet
+				ext := r.Bytes(r.Pick(20, 20, 21, 23, 16, 4))
+				if r.Bool() {
+					p = &rtcp.SenderReport{SSRC: uint32(r.U64()), ProfileExtensions: ext}
+				} else {
+					p = &rtcp.ReceiverReport{SSRC: uint32(r.U64()), ProfileExtensions: ext}
+				}
+				if b, err := safeMarshal(p); err == nil {
+					b[0] = b[0]&0xE0 | 1
+					k := kindName(p)
+					emit("dec." + k + " " + hx(b))
+					emit("udec " + hx(append(b, validFrame(r, allKinds[r.Intn(len(allKinds))])...)))
+				}
+			}
 			emit(genBigDecvOp(r, 1)) // FIR: the cheapest of the three in the model's list-indexing decoder
 		}
 		{ // an APP packet of 262144 octets: length field 0xFFFF
@@ -425,7 +440,7 @@ func genOps(prop string, r *Rng, n int, tier string, emit func(string)) {
 				emit("concat " + hx(genDatagram(r)) + " " + hx(genDatagram(r)))
 			}
 			if r.Chance(1, 20) {
-				emit("udec " + hx(genCcfbShort(r)))
+				emit("concat " + hx(genCcfbShort(r)) + " " + hx(validFrame(r, []string{"BYE", "PLI", "RR", "RAW"}[r.Intn(4)])))
 			}
 		}
 	case "C07":
